@@ -408,6 +408,17 @@ class Relax:
             r_ = z3.Real('toint!%d!R' % len(self.tri))
             self.tri[('toint', e.get_id())] = (e, r_, z3.And(r_ <= t_, t_ < r_ + 1))
             return r_
+        if k in (z3.Z3_OP_IDIV, z3.Z3_OP_MOD) and z3.is_int_value(ch0[1]) and ch0[1].as_long() > 0:
+            # integer division by a positive constant c: a fresh (relaxed) integer q with c q <= t <= c q + c - 1; t mod c = t - c q
+            c_ = ch0[1].as_long()
+            t_ = self.rx(ch0[0])
+            if not self.ok: return e
+            key_ = ('toint', 'div', ch0[0].get_id(), c_)
+            if key_ not in self.tri:
+                q_ = z3.Real('idiv!%d!R' % len(self.tri))
+                self.tri[key_] = (ch0[0], q_, z3.And(c_ * q_ <= t_, t_ <= c_ * q_ + (c_ - 1)))
+            q_ = self.tri[key_][1]
+            return q_ if k == z3.Z3_OP_IDIV else t_ - c_ * q_
         if k in (z3.Z3_OP_IDIV, z3.Z3_OP_MOD, z3.Z3_OP_REM, z3.Z3_OP_IS_INT):
             self.ok = False; return e
         ch = [self.rx(c) for c in ch0]
